@@ -14,6 +14,7 @@ directory.
 """
 from __future__ import annotations
 
+import contextlib
 import hashlib
 import os
 import shutil
@@ -21,7 +22,7 @@ import sys
 import tempfile
 import threading
 
-from . import tcpnet, svc
+from . import inject, tcpnet, svc
 from .common import Result, rng, chunked
 
 LEVEL = 'exploration'
@@ -223,8 +224,11 @@ def run_case(res, case, sigs, attempt=0):
     snaps = []
     _watch['dirs'].append(storage_dir)
     hits_before = len(_watch['hits'])
+    inj = {}
     try:
-        with tcpnet.instrument(net):
+        # concurrent senders: stretch the windows inside the file-creation path (vf/inject.py)
+        with tcpnet.instrument(net), (inject.line_delays(inject.STORAGE_PATH, seed=seed * 17 + i, stats=inj)
+                                      if concurrent else contextlib.nullcontext()):
             try:
                 if mode == 'storage-dir':
                     server = Server(storage_dir, 'STORESCP', 0, max_pdu_length=server_max)
@@ -286,6 +290,8 @@ def run_case(res, case, sigs, attempt=0):
         if tcpnet.is_timeout(error) and attempt < 2:
             res.count('flaky-timeouts')
             return run_case(res, case, sigs, attempt + 1)
+        if concurrent:
+            res.count('inject.lines-delayed', inj.get('hits', 0))
         judge(res, case, where, error, datasets, received, returned, outcomes, snaps, storage_dir,
               mode, ts_of, sop_class, concurrent, hits_before)
     finally:
